@@ -203,7 +203,7 @@ CHECKS["C01"] = {
             "instances, cache to theirs) and to nobody else; load_complete announces the end once to each waiting component; load_log / LogRecordLoaderInstance::load replay a stored "
             "record as exactly the messages of its request (shared with C07). The record CODECS of the components and the snapshot file format are outside Verus (prost / quick-protobuf "
             "/ serde, async file actors): they are covered by an always-on BOUNDED stand-in that writes a real snapshot file from real component actors, restores it into fresh "
-            "actors (wired by the real bean factory), replays the rest of the log and compares every observable answer (9240 history x compaction-point runs), and by a second "
+            "actors (wired by the real bean factory), replays the rest of the log and compares every observable answer (10626 history x compaction-point runs), and by a second "
             "always-on BOUNDED stand-in that runs the REAL start-up sequence (StateApplyManager::init -> load_index -> load_snapshot -> load_log with the real index, log and "
             "snapshot managers) over a copy of a real data directory (35 history x compaction-point runs) — both labelled bounded, not proof. The single-file log layer "
             "(unit loginner: write / init / read_records / reopen theorem, proved) also serves this property.",
